@@ -37,7 +37,7 @@ func laneCase(raw json.RawMessage) ([]vf.Failure, error) {
 	return check(c), nil
 }
 
-var lanes = map[string]vf.LaneFunc{"accept": laneCase, "matrix": laneCase, "garbage": laneCase, "semantic": laneCase}
+var lanes = map[string]vf.LaneFunc{"accept": laneCase, "matrix": laneCase, "garbage": laneCase, "semantic": laneCase, "fuzz": laneCase}
 
 func TestReplay(t *testing.T) {
 	if !vf.RunReplayMode(t, prop, lanes) {
@@ -637,4 +637,49 @@ func mutateText(t *rapid.T, text string) string {
 		}
 	}
 	return strings.Join(lines, "\n")
+}
+
+func fuzzCase(text string) srcCase {
+	return srcCase{Files: map[string]string{"fz/pkg/v1/main.j5s": text}, Valid: false, What: "fuzz"}
+}
+
+// FuzzCompile: coverage-guided bytes into the whole compiler (parse, convert, link,
+// lint) for one single-file package. Oracle: C07(a) totality + positioned errors.
+func FuzzCompile(f *testing.F) {
+	for _, c := range matrixCells() {
+		if strings.Contains(c.feature, "|plain|none") || strings.Contains(c.feature, "container") {
+			sc := cellBundle(c)
+			f.Add(strings.Replace(sc.Files["cell/matrix/v1/main.j5s"], "package cell.matrix.v1", "package fz.pkg.v1", 1))
+		}
+	}
+	f.Add("package fz.pkg.v1\n\nentity Thing {\n\tkey thingId key:id62 {\n\t\tprimary = true\n\t}\n\tstatus ACTIVE\n\tevent Create {\n\t\tfield name string\n\t}\n}\n")
+	f.Add("package fz.pkg.v1\n\nservice Things {\n\tbasePath = \"/things\"\n\tmethod GetThing {\n\t\thttpMethod = \"GET\"\n\t\thttpPath = \"/:name\"\n\t\trequest {\n\t\t\tfield name string\n\t\t}\n\t\tresponse {\n\t\t\tfield name string\n\t\t}\n\t}\n}\n")
+	f.Add("package fz.pkg.v1\n\ntopic Things publish {\n\tmessage PostThing {\n\t\tfield name string\n\t}\n}\n")
+	known := vf.KnownOpen(prop)
+	f.Fuzz(func(t *testing.T, text string) {
+		if len(text) > 1<<13 {
+			return
+		}
+		for _, fl := range check(fuzzCase(text)) {
+			if !known[fl.Key] {
+				t.Fatalf("C07 fuzz: [%s] %s", fl.Key, fl.Detail)
+			}
+		}
+	})
+}
+
+// TestFuzzInput pushes crashers found by FuzzCompile through the normal verdict path.
+func TestFuzzInput(t *testing.T) {
+	r := vf.Start(t, prop, "fuzz")
+	for _, p := range vf.FuzzInputs() {
+		vals, err := vf.ReadFuzzInput(p)
+		if err != nil || len(vals) != 1 {
+			r.Note("unreadable fuzz input %s: %v", p, err)
+			continue
+		}
+		c := fuzzCase(vals[0].(string))
+		r.Eval(true, vf.Hash(c.Files), "fuzz-crasher")
+		r.Journal(c)
+		r.JudgeNoFatal(c, check(c))
+	}
 }
